@@ -266,6 +266,9 @@ fn features(p: &Phys, root: bool, out: &mut Vec<&'static str>) {
         }
     } else if p.offset != 0 {
         add("f:child-off");
+        if matches!(p.dt, DataType::Struct(_)) {
+            add("f:struct-child-off");
+        }
     }
     if p.nulls.is_some() {
         add("f:nulls");
@@ -1177,7 +1180,18 @@ fn run_case(line: &str) -> String {
                         }
                     }
                     match catch_unwind(AssertUnwindSafe(|| {
-                        let v = out.to_data().validate_full();
+                        let d = out.to_data();
+                        let mut v = d.validate_full();
+                        if v.is_err() && build(&phys_of(&d)).validate_full().is_ok() {
+                            // `validate` compares the bitmap's byte length with ceil((offset+len)/8) although a
+                            // NullBuffer carries its own offset: the same layout with a re-based bitmap is accepted
+                            // (it is what the next case line carries).  Validator false reject, recorded only.
+                            if let Err(e) = &v {
+                                loud(e);
+                            }
+                            tag("validate_full-false-reject".into());
+                            v = Ok(());
+                        }
                         if v.is_ok() {
                             format_all(out.as_ref());
                             let _ = out.logical_nulls().map(|x| x.null_count());
@@ -1223,7 +1237,7 @@ fn kf(s: String) {
 /// precise tags for the panics that are known defects (keys of known_findings.txt)
 fn classify_panic(step: &str, fs: &[&'static str], dt: &DataType) {
     let has = |f: &str| fs.contains(&f);
-    if step == "make_array" && (has("f:struct-off-nested") || has("f:struct-child-short")) {
+    if step == "make_array" && (has("f:struct-off-nested") || has("f:struct-child-short") || has("f:struct-child-off")) {
         kf("kf:arraydata-slice-struct".into());
     }
     if has("f:ree-runends-off") {
@@ -1235,7 +1249,24 @@ fn classify_panic(step: &str, fs: &[&'static str], dt: &DataType) {
     if step == "take" && matches!(dt, DataType::Union(_, UnionMode::Dense)) {
         kf("kf:take-dense-union-null-index".into());
     }
-    if has_fsb0(dt) {
+    if step == "rowconv" {
+        if let DataType::Union(f, UnionMode::Dense) = dt {
+            if f.iter().any(|(i, _)| i as usize >= f.len()) {
+                kf("kf:rowconv-dense-union-typeid".into());
+            }
+        }
+    }
+    if step == "cmp" {
+        if let DataType::Dictionary(_, v) = dt {
+            if matches!(**v, DataType::Dictionary(..)) {
+                kf("kf:cmp-nested-dictionary".into());
+            }
+        }
+    }
+    if step == "sort" && matches!(dt, DataType::RunEndEncoded(..)) {
+        kf("kf:sort-ree-rank-unwrap".into());
+    }
+    if has_fsb0(dt) && !matches!(step, "make_array" | "norm" | "cast") {
         kf("kf:zero-width-select".into());
     }
 }
@@ -1244,6 +1275,9 @@ fn classify_panic(step: &str, fs: &[&'static str], dt: &DataType) {
 fn classify_out(step: &str, fs: &[&'static str], dt: &DataType, out_dt: &DataType) {
     if fs.contains(&"f:sparse-union-child-len") {
         kf("kf:sparse-union-from-arraydata".into());
+    }
+    if fs.contains(&"f:ree-runends-off") {
+        kf("kf:ree-runends-child-offset".into());
     }
     if has_fsb0(dt) || has_fsb0(out_dt) {
         kf("kf:zero-width-select".into());
